@@ -2106,6 +2106,17 @@ func (t *tScreen) engage() error {
 	t.running = true
 	if ws, err := t.tty.WindowSize(); err == nil && ws.Width != 0 && ws.Height != 0 {
 		t.cells.Resize(ws.Width, ws.Height)
+		if ws.Width != t.w || ws.Height != t.h {
+			// the window changed while we were away: the size the
+			// draw loops use has to follow the cell buffer, and the
+			// application is told
+			t.w, t.h = ws.Width, ws.Height
+			ev := &EventResize{t: time.Now(), ws: ws}
+			select {
+			case t.eventQ <- ev:
+			default:
+			}
+		}
 	}
 	stopQ := make(chan struct{})
 	t.stopQ = stopQ
